@@ -13,7 +13,7 @@ NAME_SETS = [["p1", "p2"], ["p1", "p2"], ["a", "a_b"]]
 
 
 def mk_world(c):
-    return cw.ClientWorld(c["fw"], c["names"], c["cache"], c["pkce"], c["openid"], oauth1=c.get("oauth1", False), rotate=c.get("rotate", False))
+    return cw.ClientWorld(c["fw"], c["names"], c["cache"], c["pkce"], c["openid"], oauth1=c.get("oauth1", False), rotate=c.get("rotate", False), discovery=c.get("discovery", False))
 
 
 def run_op(w, op):
@@ -74,6 +74,8 @@ def configs():
             out.append({"fw": fw, "cache": cache, "pkce": False, "openid": False, "oauth1": True})
             # OpenID with a rotated provider key: the client re-fetches the JWKS before validating the ID token
             out.append({"fw": fw, "cache": cache, "pkce": True, "openid": True, "rotate": True})
+            # providers registered through their discovery document only (server_metadata_url): fetched once, on first use of the app object
+            out.append({"fw": fw, "cache": cache, "pkce": cache, "openid": True, "discovery": True})
     return out
 
 
